@@ -15,6 +15,7 @@ proved statement is named `_partial` with the excluded inputs as a decidable hyp
     regex class `\w` and the identifier class differ: `nonword_name_counterexample`).
 -/
 import FaxVerif.C11.Proofs
+import FaxVerif.Generated.C11Builtins
 namespace FaxVerif.C11
 
 /-! ## Part A — substitution of the arguments (`_replace_whole_words`) -/
@@ -219,6 +220,24 @@ theorem finder_rejects_iff (tbl : Table) (e : Expr) : isOk (finder tbl e) = Site
   | error x => simp [isOk, (finder_spec tbl e).2 x h]
 
 /-
+Full statement (false of the code, see `nonnull_style_counterexample`):
+  isOk (finder tbl e) = SitesOkFull tbl e
+-/
+/-- The same with the call style demanded of *every* injected function, `isNonnull` included
+(`SitesOkFull`), provided `isNonnull` is not invoked like a method (`StyleStrict`, defect
+exclusion: its handler only counts the arguments). -/
+theorem finder_rejects_full_partial (tbl : Table) (e : Expr) (h : StyleStrict tbl e = true) :
+    isOk (finder tbl e) = SitesOkFull tbl e := by
+  simp [SitesOkFull, h, finder_rejects_iff]
+
+/-- `m.isNonnull(x)` — a function invoked like a method — is accepted and the receiver dropped. -/
+theorem nonnull_style_counterexample :
+    let tbl : Table := [("isNonnull".toList, .nonnull)]
+    let e : Expr := .call (.attr (.name "m".toList) "isNonnull".toList) [.opaque "x".toList]
+    isOk (finder tbl e) = true ∧ SitesOkFull tbl e = false := by
+  decide
+
+/-
 Full statement (false of the code, see `receiver_not_name_counterexample`):
   finder tbl e = .ok e' → NoPendingFull tbl e' = true
 -/
@@ -384,5 +403,23 @@ example :
     (match runQuery asciiWord [] [s] [] cols 2 with
      | .ok b => b.stmts.length == 2 && b.cols == ["myf2".toList]
      | .error _ => false) = true := by decide
+
+/-! ## the built-in injected functions, as re-extracted from the source on this run -/
+
+/-- The built-in functions of the three back ends (`DeltaR`, `getAttributeFloat`,
+`getAttributeVectorFloat`, `isNonnull`; `getAttribute` refuses) satisfy the hypotheses of
+`query_sound_partial`: parameter names and method-object words are words, names do not end in a
+digit. -/
+theorem builtins_satisfy_hypotheses :
+    (tableWellFormed asciiWord Gen.atlasBuiltins && tablePrefixOk Gen.atlasBuiltins &&
+     tableWellFormed asciiWord Gen.cms_aodBuiltins && tablePrefixOk Gen.cms_aodBuiltins &&
+     tableWellFormed asciiWord Gen.cms_miniaodBuiltins && tablePrefixOk Gen.cms_miniaodBuiltins) = true := by
+  decide
+
+/-- What `isNonnull` injects on both CMS back ends is what the model's `Handler.nonnull` injects,
+and there is one such handler per CMS back end. -/
+theorem nonnull_is_modelled :
+    Gen.arityOnlyValues = [nonnullCodeValue, nonnullCodeValue] := by
+  decide
 
 end FaxVerif.C11
